@@ -33,6 +33,7 @@ type wmOp struct {
 
 type wmCase struct {
 	NP      int    `json:"np"`
+	Fanout  int    `json:"fanout"`
 	Streams []int  `json:"streams"`
 	Ops     []wmOp `json:"ops"`
 }
@@ -83,7 +84,7 @@ func wmClass(c wmCase, upto, p int) string {
 
 func wmKey(c wmCase, upto int) string {
 	var sb strings.Builder
-	fmt.Fprintf(&sb, "streams=%v", c.Streams)
+	fmt.Fprintf(&sb, "fanout=%d;streams=%v", c.Fanout, c.Streams)
 	for i := 0; i <= upto && i < len(c.Ops); i++ {
 		o := c.Ops[i]
 		if o.Op == "add" {
@@ -111,7 +112,7 @@ func wmRun(dir string, c wmCase, fail func(step int, key, what string, got any))
 		ps[i] = rawpdf.PageSpec{Marker: fmt.Sprintf("wm-%d", i+1), Rotate: -1, Streams: c.Streams[i]}
 	}
 	cur := filepath.Join(dir, "d0.pdf")
-	if err := os.WriteFile(cur, rawpdf.MarkerDoc(ps, rawpdf.MarkerOpts{}).Bytes(), 0644); err != nil {
+	if err := os.WriteFile(cur, rawpdf.MarkerDoc(ps, rawpdf.MarkerOpts{Fanout: c.Fanout}).Bytes(), 0644); err != nil {
 		h.Die("write: %v", err)
 	}
 	orig, err := proj.Pages(cur, nil)
@@ -187,7 +188,11 @@ func wmRun(dir string, c wmCase, fail func(step int, key, what string, got any))
 		if err != nil {
 			fail(i, "has-error", "HasWatermarksFile failed", err.Error())
 		} else if has != (len(o.W) > 0) {
-			fail(i, "has-wrong", fmt.Sprintf("HasWatermarksFile = %v but the watermarked pages are %v", has, o.W), has)
+			shape := "flat"
+			if c.Fanout > 0 {
+				shape = "nested"
+			}
+			fail(i, fmt.Sprintf("has-wrong|%s page tree|reports %v", shape, has), fmt.Sprintf("HasWatermarksFile = %v but the watermarked pages are %v", has, o.W), has)
 		}
 	}
 }
@@ -196,7 +201,7 @@ func wmReplay(in, out string, workers int) {
 	wr := h.NewW(out)
 	defer wr.Close()
 	var mu sync.Mutex
-	n, bad, steps := 0, 0, 0
+	n, bad, steps, nested := 0, 0, 0, 0
 	distinct := map[string]bool{}
 	ch := make(chan []byte, 64)
 	var wg sync.WaitGroup
@@ -221,6 +226,9 @@ func wmReplay(in, out string, workers int) {
 				mu.Lock()
 				n++
 				steps += len(c.Ops)
+				if c.Fanout > 0 {
+					nested++
+				}
 				multi := false
 				for _, o := range c.Ops {
 					for _, p := range o.W {
@@ -251,5 +259,5 @@ func wmReplay(in, out string, workers int) {
 	if err != nil {
 		h.Die("replay: %v", err)
 	}
-	h.Summary(map[string]any{"cases": n, "steps": steps, "mismatches": bad, "nontrivial": len(distinct)})
+	h.Summary(map[string]any{"cases": n, "steps": steps, "mismatches": bad, "nontrivial": len(distinct), "nested": nested})
 }
